@@ -164,10 +164,16 @@ func verifQueueRequest(rows int64, extra int, keys, vals []string) {
 
 // verifQueueTicks appends a tick/input stream of n batches (tags 10+i); the
 // batch at cancelAt (if in range) carries vgi_rpc.cancel.
+var verifCancelWithRows bool // the cancel batch is a data-shaped batch (rows > 0) tagged with vgi_rpc.cancel
+
 func verifQueueTicks(n int, cancelAt int) {
 	var bs []*verifBatch
 	for i := 0; i < n; i++ {
 		if i == cancelAt {
+			if verifCancelWithRows {
+				bs = append(bs, verifNewBatch(verifDataSchema, 1, 10+i, []string{MetaCancel}, []string{"1"}))
+				continue
+			}
 			bs = append(bs, verifNewBatch(verifEmptySchema, 0, 10+i, []string{MetaCancel}, []string{"1"}))
 		} else {
 			bs = append(bs, verifNewBatch(verifDataSchema, 1, 10+i, nil, nil))
